@@ -77,7 +77,17 @@ def sensitivity(chk, seed, only=None):
         d = os.path.dirname(meta)
         extra.append({"name": "seeded/" + os.path.basename(d), "property": m["property"], "what": m.get("what", ""), "patch": os.path.join(d, "patch.diff"), "expect": m.get("expect", "detected")})
     rows = []
-    for m in idx + extra:
+    # VERIF_SENS_SHARD=i/n: this process takes every n-th of the patches not named in VERIF_SENS_SKIP (a file of
+    # names already done) and writes mutants/last_sensitivity.shard<i>.json; tools/merge_sensitivity.py joins them
+    shard = os.environ.get("VERIF_SENS_SHARD")
+    skip = set()
+    if os.environ.get("VERIF_SENS_SKIP"):
+        skip = set(l.strip() for l in open(os.environ["VERIF_SENS_SKIP"]) if l.strip())
+    todo = [m for m in idx + extra if m["name"] not in skip]
+    if shard:
+        si, sn = [int(x) for x in shard.split("/")]
+        todo = [m for k, m in enumerate(todo) if k % sn == si]
+    for m in todo:
         if only and only not in m["name"]:
             continue
         patch = m.get("patch") or os.path.join(chk.VERIF, "mutants", m["name"] + ".patch")
@@ -108,7 +118,10 @@ def sensitivity(chk, seed, only=None):
             shutil.rmtree(tmp, ignore_errors=True)
         print("%-40s %-8s %-18s %s" % rows[-1])
         sys.stdout.flush()
-    if not only:
+    if shard:
+        json.dump({"seed": seed, "rows": [{"name": r[0], "property": r[1], "status": r[2], "detail": r[3]} for r in rows]},
+                  open(os.path.join(chk.VERIF, "mutants", "last_sensitivity.shard%d.json" % si), "w"), indent=1, ensure_ascii=False)
+    elif not only:
         json.dump({"seed": seed, "rows": [{"name": r[0], "property": r[1], "status": r[2], "detail": r[3]} for r in rows]},
                   open(os.path.join(chk.VERIF, "mutants", "last_sensitivity.json"), "w"), indent=1, ensure_ascii=False)
     missed = [r for r in rows if r[2] != "DETECTED"]
